@@ -171,3 +171,16 @@ func isCallInstr(in ssa.Instruction, pred func(*ssa.CallCommon) bool) bool {
 	ci, ok := in.(ssa.CallInstruction)
 	return ok && pred(ci.Common())
 }
+
+// nnShared: one non-nil engine per loaded program (rules that demand "an error is returned here"
+// must prove it non-nil: errors.Wrapf(nil, ...) and friends return nil).
+var nnCache = map[*core.Prog]*core.NonNil{}
+
+func nnShared(p *core.Prog) *core.NonNil {
+	if n, ok := nnCache[p]; ok {
+		return n
+	}
+	n := core.NewNonNil(p)
+	nnCache[p] = n
+	return n
+}
